@@ -104,7 +104,10 @@ Notation frames_f := (frames_f decode).
 
 (* events of the rpc layer never contain writes, dispatches or fuel exhaustion *)
 Definition rpc_only (e : event) : Prop :=
-  match e with EvWrite _ _ _ _ | EvDispatch _ | EvOutOfFuel | EvClose => False | _ => True end.
+  match e with
+  | EvWrite _ _ _ _ | EvHdrWrite _ _ | EvParse _ _ | EvDispatch _ | EvOutOfFuel | EvClose => False
+  | _ => True
+  end.
 
 Lemma send_msg_events cl ok r m r' evs b :
   send_msg cl ok r m = (r', evs, b) -> Forall rpc_only evs.
@@ -118,10 +121,10 @@ Lemma request_complete_events cl ok r q res r' evs :
   request_complete cl ok r q res = (r', evs) -> Forall rpc_only evs.
 Proof.
   unfold request_complete. intros H.
-  destruct (memN q (cancelled r)); [inversion H; constructor|].
+  destruct (memN q (cancelled r)); [inversion H; repeat constructor|].
   destruct (key_of q (requests r)); [|inversion H; constructor].
   destruct (send_msg _ _ _ _) as [[r1 e1] b1] eqn:E. inversion H; subst.
-  eapply send_msg_events; eauto.
+  apply Forall_app; split; [eapply send_msg_events; eauto|repeat constructor].
 Qed.
 
 Lemma supersede_events cl ok r id r' evs :
@@ -138,6 +141,7 @@ Proof.
   unfold Model.dispatch. intros H.
   destruct (m_type m =? REQUEST).
   - unfold handle_request in H.
+    destruct (method_kind (m_name m) =? 3); [inversion H; constructor|].
     destruct (method_kind (m_name m) =? 0).
     + destruct (send_msg _ _ _ _) as [[r1 e1] b1] eqn:E. inversion H; subst.
       eapply send_msg_events; eauto.
@@ -153,6 +157,7 @@ Proof.
     + unfold handle_response in H. destruct (lookup _ _); inversion H; subst; repeat constructor.
     + destruct (m_type m =? STREAM_REQUEST); [|inversion H; constructor].
       unfold handle_stream_request in H.
+      destruct (method_kind (m_name m) =? 3); [inversion H; constructor|].
       destruct (method_kind (m_name m) =? 0).
       * destruct (send_msg _ _ _ _) as [[r1 e1] b1] eqn:E. inversion H; subst.
         eapply send_msg_events; eauto.
@@ -191,17 +196,19 @@ Proof.
   assert (Hw : write_ok (EvWrite (current f) (len got) (alloc f) (bufsz f)) = true).
   { cbn. rewrite Elen. apply andb_true_intro; split; [apply andb_true_intro; split|];
       apply N.leb_le; lia. }
+  assert (Hp : write_ok (EvParse (expected f) (alloc f)) = true)
+    by (cbn; apply andb_true_intro; split; apply N.leb_le; lia).
   destruct (current f + len got =? expected f) eqn:Ecmp.
   - apply N.eqb_eq in Ecmp.
     destruct (decode (body f ++ got)) as [m|] eqn:Ed.
     + destruct (dispatch (closed f) ok r m) as [r1 evs1] eqn:Edis.
       inversion H; subst; clear H. split; [|split; [|exact Hlen]].
       * unfold FI; cbn. rewrite len_app. repeat split; try lia.
-      * intros e [<-|[<-|Hi]]; [exact Hw|reflexivity|].
+      * intros e [<-|[<-|[<-|Hi]]]; [exact Hw|exact Hp|reflexivity|].
         apply dispatch_events in Edis. apply rpc_only_ok in Edis. auto.
     + inversion H; subst; clear H. split; [|split; [|exact Hlen]].
       * unfold FI; cbn. rewrite len_app. repeat split; try lia.
-      * intros e [<-|[<-|[]]]; [exact Hw|reflexivity].
+      * intros e [<-|[<-|[<-|[]]]]; [exact Hw|exact Hp|reflexivity].
   - apply N.eqb_neq in Ecmp.
     inversion H; subst; clear H. split; [|split; [|exact Hlen]].
     + unfold FI; cbn. rewrite len_app. repeat split; try lia.
@@ -231,25 +238,29 @@ Proof.
     { rewrite Elen. destruct (got ++ rs) eqn:E; [congruence|]. rewrite len_cons. lia. }
     unfold len in H0. lia. }
   destruct Hlen as [Hl1 Hl2].
-  destruct (len (hdr f ++ got) <? 4) eqn:E4.
-  - apply N.ltb_lt in E4. cbn in H. inversion H; subst; clear H.
-    repeat split; cbn; auto using evs_ok_nil; try lia.
-    all: exfalso; cbn in *; lia.
+  set (hw := EvHdrWrite (len (hdr f)) (N.min (4 - len (hdr f)) (len avail))) in *.
+  assert (Hhw : write_ok hw = true) by (unfold hw, write_ok; apply N.leb_le; lia).
+  assert (Ok1 : evs_ok [hw]) by (intros e [<-|[]]; exact Hhw).
+  assert (Ok2 : evs_ok [hw; EvClose]) by (intros e [<-|[<-|[]]]; [exact Hhw|reflexivity]).
+  destruct (len (hdr f ++ got) <? 4) eqn:E4; cbv beta iota zeta in H.
+  - apply N.ltb_lt in E4. rewrite N.eqb_refl in H. inversion H; subst; clear H.
+    split; [apply FI_exp0; cbn; try lia; try assumption|]. split; [exact Ok1|].
+    split; [lia|]. intros Hn _. apply Hl2; exact Hn.
   - apply N.ltb_ge in E4.
     remember (hdr_version (hdr_word (hdr f ++ got))) as ver.
     remember (hdr_size (hdr_word (hdr f ++ got))) as size.
     destruct (size =? 0) eqn:Ez.
     { apply N.eqb_eq in Ez. inversion H; subst; clear H. rewrite Ez.
-      repeat split; cbn; auto using evs_ok_nil; try lia.
-      all: exfalso; cbn in *; lia. }
+      split; [apply FI_exp0; cbn; try lia; try assumption|]. split; [exact Ok1|].
+      split; [lia|]. intros Hn _. apply Hl2; exact Hn. }
     apply N.eqb_neq in Ez.
     destruct (negb (ver =? PROTOCOL_VERSION)).
     { inversion H; subst; clear H.
-      split; [apply FI_exp0; cbn; try lia; try assumption|]. split; [intros e [<-|[]]; reflexivity|].
+      split; [apply FI_exp0; cbn; try lia; try assumption|]. split; [exact Ok2|].
       split; [lia|]. intros Hn _. apply Hl2; exact Hn. }
     destruct (MAX_BUFFER_SIZE <? size) eqn:Emax.
     { inversion H; subst; clear H.
-      split; [apply FI_exp0; cbn; try lia; try assumption|]. split; [intros e [<-|[]]; reflexivity|].
+      split; [apply FI_exp0; cbn; try lia; try assumption|]. split; [exact Ok2|].
       split; [lia|]. intros Hn _. apply Hl2; exact Hn. }
     apply N.ltb_ge in Emax. change MAX_BUFFER_SIZE with 1048576 in Emax.
     cbn [set_exp alloc bufsz expected current hdr body closed] in H.
@@ -257,9 +268,12 @@ Proof.
     apply allocate_spec in Eal; cbn; try lia.
     cbn in Eal. destruct Eal as (A1 & A2 & A3 & A4 & A5 & A6 & A7 & A8).
     destruct (ret <? size) eqn:Ers; [apply N.ltb_lt in Ers; lia|].
-    apply body_phase_safe in H.
-    + destruct H as (B1 & B2 & B3 & B4). split; [exact B1|]. split; [exact B2|]. split; [lia|].
-      intros Hn _. specialize (Hl2 Hn). lia.
+    destruct (body_phase ok _ r rs) as [[[f6 r6] rest6] evs6] eqn:Eb.
+    inversion H; subst f' r' rest evs; clear H.
+    apply body_phase_safe in Eb.
+    + destruct Eb as (B1 & B2 & B3 & B4). split; [exact B1|]. split.
+      * intros e [<-|Hi]; [exact Hhw|auto].
+      * split; [lia|]. intros Hn _. specialize (Hl2 Hn). lia.
     + unfold FI; cbn. rewrite A4, A5, A6, A7. cbn. repeat split; try lia.
     + cbn. rewrite A4. exact Ez.
 Qed.
